@@ -306,7 +306,16 @@ def check_site(site, sim, gfacts, kbmod=kb, allocs=None):
         if not hit:
             need_e, facts_e = eliminate_equalities(need, [(absnorm(D), st_) for D, st_, _t in fpolys])
             relf = _relevant_facts(need_e, facts_e, "len(%s)" % X)
-            verdict, wit = grid_decide(need_e, relf, case, gfacts, "len(%s)" % X)
+            if any((not st_) and D_ == need_e for D_, st_ in facts_e):
+                verdict, wit = "equivalent", None          # exact after substituting the equalities
+            else:
+                verdict, wit = grid_decide(need_e, relf, case, gfacts, "len(%s)" % X)
+                if verdict == "unknown":
+                    # too many variables through transitive relevance: only the facts that share a variable with the need
+                    nb_ = _base_vars([need_e])
+                    direct = [(D_, st_) for D_, st_ in facts_e if _base_vars([D_]) & nb_
+                              and not any(v_.startswith("len(") and v_ != "len(%s)" % X for v_ in _base_vars([D_]))]
+                    verdict, wit = grid_decide(need_e, direct, case, gfacts, "len(%s)" % X)
             if verdict == "equivalent":
                 hit = ("equivalent on the grid", weaker[1] if weaker else "")
             elif verdict == "over":
